@@ -991,14 +991,23 @@ fn record_bus_directed(out: &mut TraceOut) -> Value {
         v.push(Message::QueryState(Address(b)));
         steps += run_bus_script(out, &[(3, PageFlipStyle::Manual), (4, PageFlipStyle::Automatic)], v);
     }
-    // (1b) hundreds of acknowledged receive requests with no chunk count in between, then another sign's transfer
+    // (1b) a long history without any chunk count: receive requests of one sign alternate with complete little
+    // "request, configuration chunk, abandon" episodes of another, so that any bus-level bookkeeping (counters of open
+    // transfers and the like) is swept through hundreds of values while a sign is receiving
     {
         out.balance();
         let mut v = vec![];
-        for _ in 0..300 {
+        for r in 0..300u32 {
             v.push(Message::RequestOperation(Address(3), Operation::ReceiveConfig));
+            if r % 7 == 3 {
+                v.push(Message::RequestOperation(Address(3), Operation::ReceiveConfig)); // refused: no acknowledgement
+            }
             v.push(Message::RequestOperation(Address(3), Operation::StartReset));
             v.push(Message::RequestOperation(Address(3), Operation::FinishReset));
+            v.push(Message::RequestOperation(Address(6), Operation::ReceiveConfig));
+            v.push(sd(0, &cfg_tiny()));
+            v.push(Message::RequestOperation(Address(6), Operation::StartReset));
+            v.push(Message::RequestOperation(Address(6), Operation::FinishReset));
         }
         v.extend(cfg(6));
         v.push(sd(0, &[1, 16, 0, 0, 0, 0, 0, 0, 0, 0, 0, 0, 255, 255, 255, 255]));
